@@ -33,17 +33,19 @@ INVS = ["Inv_C02_EndState", "Inv_C02_Admission", "Inv_C02_Forms"]
 SCOPE = {
     # mc: exhaustive closed-model scopes; gen: scenario enumeration scopes (replay = sample size, None = all);
     # orders: dequeue orders per enumerated scenario ("one" random / "all"); explore: explorer scenarios per profile
-    "quick": dict(mc=["NPods = 3  Archs = {1,3,4,6,7,11}  Layouts = {0,1,2,3}  MaxClaims = 2",
-                      "NPods = 2  Archs = {2,5,9,10,12,13,14,15,16,17,18,20,22,23}  Layouts = {1,4,5,6,7,8,9}  MaxClaims = 2"],
+    "quick": dict(mc=["NPods = 3  Archs = {1,3,4,6,7,10}  Layouts = {0,1,2,3}  MaxClaims = 2",
+                      "NPods = 2  Archs = {2,5,9,11,12,13,14,15,16,17,18,20,22,23}  Layouts = {1,4,5,6,7,8,9}  MaxClaims = 2"],
                   gen=[("NPods = 2  Archs = %s  Layouts = %s  MaxClaims = 2" % (ALL_ARCHS, ALL_LAYOUTS), 700),
-                       ("NPods = 3  Archs = {1,3,4,5,6,7,9,11,14,18,20}  Layouts = {0,1,2,3,4,6}  MaxClaims = 2", 300)],
+                       ("NPods = 3  Archs = {1,3,4,5,6,7,9,10,11,14,18,20}  Layouts = {0,1,2,3,4,6}  MaxClaims = 2", 300)],
                   orders="one", explore={"topo": 1200, "interpod": 200}),
-    "thorough": dict(mc=["NPods = 3  Archs = {1,2,3,4,5,6,7,9,11,18,20}  Layouts = {0,1,2,3,4}  MaxClaims = 2",
+    # every archetype takes part in a 3-pod scope (a, d); b: all pairs x all layouts with a third NodeClaim; c: four pods
+    "thorough": dict(mc=["NPods = 3  Archs = {1,2,3,4,5,6,7,9,10,11,18,20}  Layouts = {0,1,2,3,4}  MaxClaims = 2",
                          "NPods = 2  Archs = %s  Layouts = %s  MaxClaims = 3" % (ALL_ARCHS, ALL_LAYOUTS),
-                         "NPods = 4  Archs = {3,6,7}  Layouts = {0,3}  MaxClaims = 2"],
+                         "NPods = 4  Archs = {3,6,7}  Layouts = {0,3}  MaxClaims = 2",
+                         "NPods = 3  Archs = {8,12,13,14,15,16,17,19,21,22,23}  Layouts = {1,5,6,7,8,9}  MaxClaims = 2"],
                      gen=[("NPods = 2  Archs = %s  Layouts = %s  MaxClaims = 2" % (ALL_ARCHS, ALL_LAYOUTS), None),
                           ("NPods = 3  Archs = %s  Layouts = %s  MaxClaims = 2" % (ALL_ARCHS, ALL_LAYOUTS), 9000),
-                          ("NPods = 4  Archs = {1,3,4,5,6,7,9,11,14,18,20}  Layouts = {0,1,2,3,4,6}  MaxClaims = 2", 1500)],
+                          ("NPods = 4  Archs = {1,3,4,5,6,7,9,10,11,14,18,20}  Layouts = {0,1,2,3,4,6}  MaxClaims = 2", 1500)],
                      orders="all", explore={"topo": 12000, "interpod": 2000}),
 }
 # spec mutation -> invariant TLC must report
